@@ -141,7 +141,8 @@ func c05Check(x *vcRun, s *vcState, hist []vcEv) []hbfs.Fail {
 }
 
 func TestVerif_C05(t *testing.T) {
-	vcMain(t, &vcProp{ID: "C05", Check: c05Check, Twin: true, Universes: []string{"pol", "set"}, QuickBases: map[string][]string{"pol": {"empty", "full", "dangling"}, "set": {"empty", "full"}}},
+	vcMain(t, &vcProp{ID: "C05", Check: c05Check, Twin: true, Universes: []string{"pol", "set"}, QuickBases: map[string][]string{"pol": {"empty", "full", "dangling"}, "set": {"empty", "full"}},
+		QuickBatchBases: map[string][]string{"pol": {"empty", "full"}}},
 		"states = (datastore content, in-sync flag, shadow dataplane content, EventSequencer pending-object digest) reached by histories of "+
 			"set(key,variant)/del(key)/flush/insync over universes pol and set, in which profile rules, profile labels, policies and workload endpoints each have a variant that fails "+
 			"validation, and profile rules / tiers / policies can arrive late, be deleted while referenced and come back; each explored from an empty graph and from a fully populated, "+
